@@ -96,10 +96,20 @@ func entity(sb *strings.Builder, h map[string][]string, getCT string, body []byt
 		boundary, hb = params["boundary"]
 		fmt.Fprintf(sb, " M %s %s %s", hx.Hex([]byte(mediatype)), cs, b01(hb))
 	}
-	_, qerr := io.ReadAll(quotedprintable.NewReader(bytes.NewReader(body)))
-	_, serr := io.ReadAll(base64.NewDecoder(base64.StdEncoding, bytes.NewReader(body)))
-	_, derr := base64.StdEncoding.DecodeString(string(body))
-	fmt.Fprintf(sb, " %s%s%s%s", b01(readOK), b01(qerr == nil), b01(serr == nil), b01(derr == nil))
+	rawh := hx.Hex(body)
+	dec := func(d []byte, err error) string {
+		if err != nil {
+			return "!"
+		}
+		if h := hx.Hex(d); h != rawh {
+			return h
+		}
+		return "="
+	}
+	qd, qerr := io.ReadAll(quotedprintable.NewReader(bytes.NewReader(body)))
+	sd, serr := io.ReadAll(base64.NewDecoder(base64.StdEncoding, bytes.NewReader(body)))
+	dd, derr := base64.StdEncoding.DecodeString(string(body))
+	fmt.Fprintf(sb, " %s %s %s %s %s", b01(readOK), rawh, dec(qd, qerr), dec(sd, serr), dec(dd, derr))
 	if !hb || depth > 40 {
 		sb.WriteString(" 0 1")
 		return
@@ -137,26 +147,42 @@ func Tree(raw []byte, off, chunk int) string {
 		_, err = body.ReadFrom(pm.Body)
 	}
 	if err != nil || pm == nil {
-		return "0 1 1 E 0 N 1111 0 1"
+		return "0 - - - - - E 0 N 1 ~ = = = 0 1"
 	}
-	addrOK := true
+	strs := func(l []*netmail.Address) string {
+		out := "a"
+		for i, a := range l {
+			if i > 0 {
+				out += ","
+			}
+			out += hx.Hex([]byte(a.String()))
+		}
+		return out
+	}
+	from, to := "-", [3]string{"-", "-", "-"}
 	if v := pm.Header.Get("From"); v != "" {
-		if _, e := netmail.ParseAddress(v); e != nil {
-			addrOK = false
+		if a, e := netmail.ParseAddress(v); e != nil {
+			from = "!"
+		} else {
+			from = strs([]*netmail.Address{a})
 		}
 	}
-	for _, k := range []string{"To", "Cc", "Bcc"} {
+	for i, k := range []string{"To", "Cc", "Bcc"} {
 		if v := pm.Header.Get(k); v != "" {
-			if _, e := netmail.ParseAddressList(v); e != nil {
-				addrOK = false
+			if l, e := netmail.ParseAddressList(v); e != nil {
+				to[i] = "!"
+			} else {
+				to[i] = strs(l)
 			}
 		}
 	}
-	dateOK := true
-	if _, e := pm.Header.Date(); e != nil && !errors.Is(e, netmail.ErrHeaderNotPresent) {
-		dateOK = false
+	date := "-"
+	if t, e := pm.Header.Date(); e == nil {
+		date = "d" + hx.Hex([]byte(t.Format(time.RFC1123Z)))
+	} else if !errors.Is(e, netmail.ErrHeaderNotPresent) {
+		date = "!"
 	}
-	fmt.Fprintf(&sb, "1 %s %s", b01(addrOK), b01(dateOK))
+	fmt.Fprintf(&sb, "1 %s %s %s %s %s", from, to[0], to[1], to[2], date)
 	entity(&sb, pm.Header, pm.Header.Get("Content-Type"), body.Bytes(), true, 0)
 	return sb.String()
 }
@@ -181,10 +207,20 @@ func joinOrDash(l []string) string {
 func Observe(m *mail.Msg) string {
 	var parts, atts, embs, gen []string
 	for _, p := range m.GetParts() {
-		parts = append(parts, hx.Hex([]byte(p.GetContentType()))+":"+hx.Hex([]byte(p.GetCharset()))+":"+hx.Hex([]byte(p.GetEncoding())))
+		c, err := p.GetContent()
+		ch := hx.Hex(c)
+		if err != nil {
+			ch = "ERR"
+		}
+		parts = append(parts, hx.Hex([]byte(p.GetContentType()))+":"+hx.Hex([]byte(p.GetCharset()))+":"+hx.Hex([]byte(p.GetEncoding()))+":"+ch)
 	}
 	file := func(f *mail.File) string {
-		return hx.Hex([]byte(f.Name)) + ":" + hx.Hex([]byte(f.Header.Get("Content-ID")))
+		var b bytes.Buffer
+		bh := "ERR"
+		if _, err := f.Writer(&b); err == nil {
+			bh = hx.Hex(b.Bytes())
+		}
+		return hx.Hex([]byte(f.Name)) + ":" + hx.Hex([]byte(f.Header.Get("Content-ID"))) + ":" + bh
 	}
 	for _, f := range m.GetAttachments() {
 		atts = append(atts, file(f))
@@ -198,8 +234,27 @@ func Observe(m *mail.Msg) string {
 		}
 	}
 	sort.Strings(gen)
-	return fmt.Sprintf("ok cs=%s enc=%s parts=%s att=%s emb=%s gen=%s", hx.Hex([]byte(m.Charset())), hx.Hex([]byte(m.Encoding())),
-		joinOrDash(parts), joinOrDash(atts), joinOrDash(embs), joinOrDash(gen))
+	al := func(l []string) string {
+		var h []string
+		for _, a := range l {
+			h = append(h, hx.Hex([]byte(a)))
+		}
+		return joinOrDash(h)
+	}
+	return fmt.Sprintf("ok cs=%s enc=%s parts=%s att=%s emb=%s gen=%s from=%s to=%s cc=%s bcc=%s", hx.Hex([]byte(m.Charset())), hx.Hex([]byte(m.Encoding())),
+		joinOrDash(parts), joinOrDash(atts), joinOrDash(embs), joinOrDash(gen),
+		al(m.GetFromString()), al(m.GetToString()), al(m.GetCcString()), al(m.GetBccString()))
+}
+
+// GenValues: the values of the generic headers C10 looks at (Subject, Date), as stored in the Msg.
+func GenValues(m *mail.Msg) string {
+	get := func(k mail.Header) string {
+		if v := m.GetGenHeader(k); len(v) > 0 {
+			return hx.Hex([]byte(v[0]))
+		}
+		return "-"
+	}
+	return "subj=" + get(mail.HeaderSubject) + " date=" + get(mail.HeaderDate)
 }
 
 // Result of running the real parser on one input.
@@ -262,4 +317,48 @@ func Parse(raw []byte, off, chunk int, box time.Duration) Result {
 	case <-time.After(box):
 		return Result{Obs: "hang"}
 	}
+}
+
+// FrontArgs: the net/mail results the Gallina front end (EmlFront.eml_parse) takes as oracles:
+// "<from> <date> <value>=<result>…" for the address-list fields present in the header.
+func FrontArgs(raw []byte) []string {
+	pm, err := netmail.ReadMessage(bytes.NewReader(raw))
+	if err != nil {
+		return []string{"-", "-"}
+	}
+	strs := func(l []*netmail.Address) string {
+		out := "a"
+		for i, a := range l {
+			if i > 0 {
+				out += ","
+			}
+			out += hx.Hex([]byte(a.String()))
+		}
+		return out
+	}
+	from := "-"
+	if v := pm.Header.Get("From"); v != "" {
+		if a, e := netmail.ParseAddress(v); e != nil {
+			from = "!"
+		} else {
+			from = strs([]*netmail.Address{a})
+		}
+	}
+	date := "-"
+	if t, e := pm.Header.Date(); e == nil {
+		date = "d" + hx.Hex([]byte(t.Format(time.RFC1123Z)))
+	} else if !errors.Is(e, netmail.ErrHeaderNotPresent) {
+		date = "!"
+	}
+	out := []string{from, date}
+	for _, k := range []string{"To", "Cc", "Bcc"} {
+		if v := pm.Header.Get(k); v != "" {
+			r := "!"
+			if l, e := netmail.ParseAddressList(v); e == nil {
+				r = strs(l)
+			}
+			out = append(out, hx.Hex([]byte(v))+"="+r)
+		}
+	}
+	return out
 }
